@@ -8,6 +8,7 @@ Good(ev) ==
        \/ /\ ev.op # "Reset"
           /\ \/ ev.op = "Conv2" /\ a.src = SrcBuf(Len(a.src)) /\ a.dst = DstBuf(Len(a.dst)) /\ Conv2(a.dir, a.flavour, a.size, a.n, a.ss, a.ds)
              \/ ev.op = "Conv1" /\ a.buf = SrcBuf(Len(a.buf)) /\ Conv1(a.dir, a.flavour, a.size, a.n, a.st)
+             \/ ev.op = "Conv1g" /\ a.buf = SrcBuf(Len(a.buf)) /\ Conv1g(a.dir, a.flavour, a.size, a.n, a.ss, a.ds)
              \/ ev.op = "Sweep" /\ Sweep(a.dir, a.flavour, a.size, a.mode, a.block)
           /\ ObsOK(out', o)
 TraceInit == Init /\ l = 1 /\ TLCSet(1, 1)
